@@ -35,4 +35,11 @@ theorem users_ok :
     Extracted.Glob.ignoredBody = Expected.Glob.ignoredBody ∧
     Extracted.Glob.loadPackageBody = Expected.Glob.loadPackageBody := ⟨rfl, rfl, rfl, rfl⟩
 
+/-- watch mode consults the ignore list on the changed file's whole project-relative path, and a target body's
+`os.glob` walks the thread's working directory (`function.newThread`, `util.Getwd`) -/
+theorem watch_and_wd_ok :
+    Extracted.Glob.watchBody = Expected.Glob.watchBody ∧
+    Extracted.Glob.newThreadBody = Expected.Glob.newThreadBody ∧
+    Extracted.Glob.getwdBody = Expected.Glob.getwdBody := ⟨rfl, rfl, rfl⟩
+
 end Dawn.Ties.Glob
